@@ -41,15 +41,10 @@ def run(ctx):
     for r in failed:
         if r.kind == "canary":
             raise core.CheckerBroken("vacuous hypotheses: canary %s is %s" % (r.name, r.verdict))
-        witness = [v for v in ctx.violations if v.input is not None]
-        if witness:
-            v = witness[0]
-            ctx.violation(core.Violation("C14", r.name, "obligation generated from the current source of _walk is not discharged (%s); the bounded run of the real code "
-                                         "fails %s: %s" % (r.verdict, v.obligation, v.what), input=v.input, cls={"function": "_walk"}))
-        else:
-            ctx.violation(core.Violation("C14", r.name, "obligation generated from the current source of _walk is not discharged (%s by %s); the bounded run found no "
-                                         "failing input" % (r.verdict, r.backend), input=None, cls={"function": "_walk"},
-                                         solver={"verdict": r.verdict, "backend": r.backend, "detail": r.detail, "model": r.model}, no_input=True))
+        # (when the bounded run of the real code found a failing input in this run, core adopts it for this violation)
+        ctx.violation(core.Violation("C14", r.name, "obligation generated from the current source of _walk is not discharged (%s by %s)" % (r.verdict, r.backend),
+                                     input=None, cls={"function": "_walk"},
+                                     solver={"verdict": r.verdict, "backend": r.backend, "detail": r.detail, "model": r.model}, no_input=True))
     ctx.coverage["proved_subobligations"] = {
         "what": "ccube._walk executed symbolically on the working tree's AST per contract case (several/one/no dimensions x restricted/unrestricted): for an ARBITRARY "
                 "coordinate tuple the number of callback calls is 1 iff every coordinate is a key or -1, not all are -1 (unrestricted), and the intersection is "
@@ -64,7 +59,7 @@ def run(ctx):
         ctx.notes.append("proved part not generated (source outside the executor's subset; the bounded part decides): %r" % (stale,))
     ctx.assumptions += [
         "proved part: dict iteration visits every key of dims[0] exactly once and `for func in funcs` every callback once (loop rule); a strictly increasing uint32 "
-        "array is abstracted to its element set; dimensions are well-formed one-axis indexes (keys (k,), k >= 0, entries non-empty strictly increasing: C07); "
+        "array is abstracted to its element set; dimensions are one-axis indexes with keys (k,), k >= 0, entries strictly increasing (possibly empty); "
         "row-id arrays shorter than 2**31 (the kernel's length limit); the accumulation into self.intersection_data_points is outside the contract",
     ]
 
